@@ -2,6 +2,7 @@ import OrsoVerif.Lemmas.Persist
 import OrsoVerif.Lemmas.PersistAll
 import OrsoVerif.Lemmas.PersistPy
 import OrsoVerif.Lemmas.PersistFns
+import OrsoVerif.Lemmas.PersistSession
 /-!
 # C16 — Schemas and columns survive persistence round-trips unchanged
 
@@ -603,6 +604,137 @@ example :
     ∧ init Py.caster "fresh" { name := some "q", type := some (.text "integer".toList), default := some (.str "x") }
       = .error .value
     ∧ init Py.caster "fresh" ({ } : Raw PyVal) = .error .columnDefinition := by
+  decide
+
+/-! ## fifth pass: the "behaves identically" clause on a schema with a history -/
+
+/-- **`validate` judges by the columns as they are now.**  Extracted from the working tree on every run (C05's reading of
+`RelationSchema.validate`, through properties and helper methods): it depends on no state that is not a declared field
+(no cached plan, no memoising decorator, no undeclared attribute, no write to `self`), what it reads of the schema is
+restored by `from_dict` from the key of the same name, and what it reads of a column is its name, type and nullability -
+declared fields that `to_dict` writes and that `vcol` carries.  This is what makes `Validate.validate (vcols s)` the
+outcome for *every* schema object in state `s`, whatever was validated against it before: the original with its
+history, and the restored copy without one. -/
+theorem validate_reads_current_columns :
+    Gen.ValidateFlow.hiddenState = []
+    ∧ (∀ a ∈ Gen.ValidateFlow.schemaReads, Gen.Persist.fromDictRestores.lookup a = some a)
+    ∧ (∀ a ∈ Gen.ValidateFlow.columnReads, a ∈ ["name", "type", "nullable"] ∧ a ∈ Gen.Persist.columnFields) := by
+  decide
+
+/-- **After any session the restored schema behaves identically.**  Start from a schema whose columns are reachable
+states, run any list of steps - validate a record, assign an attribute of a column in place, add / remove / replace a
+column (by a reachable one), reverse the columns, assign the schema's name, aliases, primary key - then write the schema
+with the translated `to_dict` and load it with the translated `from_dict`: the loaded schema is the schema as it is now,
+gives every record the same validation outcome and reports the same description. -/
+theorem session_restored_behaves_same (K : Caster V)
+    (hIdem : ∀ m v w, K.parse m v = some w → K.truthy w = true → K.parse m w = some w)
+    (fresh : String) (s : Schema V) (es : List (Edit V))
+    (h0 : ∀ c ∈ s.columns, Reachable K c) (hes : ∀ e ∈ es, e.Fine K) :
+    ∃ s', Gen.PersistFns.schema_from_dict K fresh (SDictE.ofSDict (Gen.PersistFns.schema_to_dict (runSession es s))) = .ok s'
+      ∧ s' = runSession es s
+      ∧ (∀ rec : Validate.Record, Validate.validate (vcols s') rec = Validate.validate (vcols (runSession es s)) rec)
+      ∧ describe s' = describe (runSession es s) :=
+  ⟨runSession es s,
+   generated_from_dict_to_dict K hIdem fresh (runSession es s) (runSession_keeps K es hes s h0), rfl, fun _ => rfl, rfl⟩
+
+/-- **Validating leaves no trace**: the schema a session ends in - hence every later validation outcome, written
+dictionary and description - is the one the same edits give without any record validated in between. -/
+theorem session_history_invisible (es : List (Edit V)) (s : Schema V) (rec : Validate.Record) :
+    runSession es s = runSession (es.filter Edit.writes) s
+    ∧ Validate.validate (vcols (runSession es s)) rec
+      = Validate.validate (vcols (runSession (es.filter Edit.writes) s)) rec := by
+  have h := runSession_ignores_use es s
+  exact ⟨h, congrArg (fun x => Validate.validate (vcols x) rec) h⟩
+
+/-- **Whatever state the columns were left in**: an attribute assigned in place can give a state no constructor call
+produces (a type member next to a default of the old type, a DECIMAL without precision, a raw default); the dictionary
+round trip is then not the identity (the constructor casts the default and fills DECIMAL parameters on load) and may
+raise.  Whenever it succeeds - the only hypothesis is that every column's type is an `OrsoTypes` member or the int 0,
+which in-place assignment of a member keeps true - the loaded schema shows `validate` the same columns, so it accepts
+and rejects the same records; over the model's functions and over the translated ones. -/
+theorem restored_validates_same_any_state (K : Caster V) (fresh : String) (s s' : Schema V)
+    (hw : ∀ c ∈ s.columns, TypeWritable c) (rec : Validate.Record) :
+    (fromDict K fresh (toDict s) = .ok s' → Validate.validate (vcols s') rec = Validate.validate (vcols s) rec)
+    ∧ (Gen.PersistFns.schema_from_dict K fresh (SDictE.ofSDict (Gen.PersistFns.schema_to_dict s)) = .ok s' →
+        Validate.validate (vcols s') rec = Validate.validate (vcols s) rec) := by
+  constructor
+  · intro hr
+    rw [fromDict_vcols K fresh s s' hw hr]
+  · intro hr
+    rw [gen_schema_from_dict_eq, gen_schema_to_dict_eq, fromDictE_ofSDict] at hr
+    rw [fromDict_vcols K fresh s s' hw hr]
+
+/-- ... and through JSON, one column at a time: whatever the column holds (K01 / K02 concern its default and statistics),
+if `from_json(to_json(c))` succeeds it has the name, type and nullability of `c` - over the model's functions and over
+the translated ones -/
+theorem json_restored_column_validates_same (K : Caster V) (fresh : String) (c c' : Col V) (hw : TypeWritable c) :
+    (jsonRoundTrip K fresh c = .ok c' → vcol c' = vcol c)
+    ∧ ((Gen.PersistFns.to_json K c).bind (Gen.PersistFns.from_json K fresh) = .ok c' → vcol c' = vcol c) := by
+  refine ⟨jsonRoundTrip_vcol K fresh c c' hw, fun h => ?_⟩
+  apply jsonRoundTrip_vcol K fresh c c' hw
+  unfold jsonRoundTrip
+  rw [gen_to_json_eq] at h
+  cases hj : colToJson K c with
+  | error e => rw [hj] at h; cases h
+  | ok d =>
+    rw [hj] at h
+    have h' : Gen.PersistFns.from_json K fresh d = .ok c' := h
+    rw [gen_from_json_eq] at h'
+    exact h'
+
+/-- **After a session of arbitrary in-place writes** - validate records, write anything to any attribute of a column but
+its type, assign an `OrsoTypes` member to a column's type, add / remove / replace columns, reverse them - starting from
+columns built by the constructor: if the written dictionary loads, the loaded schema accepts and rejects the same
+records as the schema with the history. -/
+theorem session_any_writes_validates_same (K : Caster V)
+    (hIdem : ∀ m v w, K.parse m v = some w → K.truthy w = true → K.parse m w = some w)
+    (fresh : String) (s s' : Schema V) (es : List (RawEdit V))
+    (h0 : ∀ c ∈ s.columns, Reachable K c) (hes : ∀ e ∈ es, e.Fine)
+    (hr : Gen.PersistFns.schema_from_dict K fresh (SDictE.ofSDict (Gen.PersistFns.schema_to_dict (runRaw es s))) = .ok s')
+    (rec : Validate.Record) :
+    Validate.validate (vcols s') rec = Validate.validate (vcols (runRaw es s)) rec :=
+  (restored_validates_same_any_state K fresh (runRaw es s) s'
+    (runRaw_keeps es hes s (fun c hc => typeWritable_of_reachable K hIdem c (h0 c hc))) rec).2 hr
+
+/-- in-place assignments keep the hypothesis of `restored_validates_same_any_state`: a type member of the enum, and any
+value at all for every other attribute -/
+theorem type_writable_kept (c : Col V) (h : TypeWritable c) (m : Str) (hm : m ∈ persistableTypes)
+    (d hv lv : V) (p sc l : Option Nat) (e : Option Ty) (n : Bool) (nm : String) :
+    TypeWritable { c with type := .member m }
+    ∧ TypeWritable { c with default := d, highest_value := hv, lowest_value := lv, precision := p, scale := sc,
+                            length := l, element_type := e, nullable := n, name := nm } :=
+  ⟨.inr ⟨m, rfl, hm⟩, h⟩
+
+
+/-- non-vacuity of `restored_validates_same_any_state`: the demo schema with its VARCHAR[12] column retyped in place to
+DECIMAL (no precision, no scale - a state the constructor never leaves) and made non-nullable meets the hypothesis; the
+dictionary loads, the loaded schema is *not* the edited one (precision and scale were filled on load), and `validate`
+reads the same columns of both -/
+def retyped : Schema PyVal :=
+  { demo with columns := modifyAt (fun c => { c with type := .member "DECIMAL".toList, nullable := false }) 7 demo.columns }
+
+theorem retyped_writable : ∀ c ∈ retyped.columns, TypeWritable c := by
+  intro c hc
+  simp only [retyped, demo, modifyAt, List.mem_cons, List.not_mem_nil, or_false] at hc
+  rcases hc with rfl | rfl | rfl | rfl | rfl | rfl | rfl | rfl <;> exact .inr ⟨_, rfl, by decide⟩
+
+example : (match fromDict Py.caster "fresh" (toDict retyped) with
+           | .ok s' => decide (s' ≠ retyped) && (vcols s' == vcols retyped)
+           | _ => false) = true := by decide
+
+example (s' : Schema PyVal) (hr : fromDict Py.caster "fresh" (toDict retyped) = .ok s') (rec : Validate.Record) :
+    Validate.validate (vcols s') rec = Validate.validate (vcols retyped) rec :=
+  (restored_validates_same_any_state Py.caster "fresh" retyped s' retyped_writable rec).1 hr
+
+/-- non-vacuity: the seeded session - validate, make a column non-nullable in place, retype nothing - on the demo schema:
+the record with a null in that column is accepted before the edit and rejected after it, by the original and by the copy -/
+example :
+    Validate.validate (vcols (runSession [.use [("v", some "str")], .col 7 (.nullable false)] demo))
+        [("u", some "set"), ("d", some "Decimal"), ("l", some "list"), ("m", none), ("n", some "list"), ("w", some "time"),
+         ("k", some "bool"), ("v", none)]
+      ≠ Validate.validate (vcols demo)
+        [("u", some "set"), ("d", some "Decimal"), ("l", some "list"), ("m", none), ("n", some "list"), ("w", some "time"),
+         ("k", some "bool"), ("v", none)] := by
   decide
 
 end C16
